@@ -314,7 +314,9 @@ def _init_bc(A: spmatrix,
     assert isinstance(D, ndarray)
 
     if x is None:
-        x = np.zeros(A.shape[0], dtype=A.dtype)
+        x = np.zeros(A.shape[0],
+                     dtype=(A.dtype if b is None
+                            else np.result_type(A.dtype, b.dtype)))
     elif b is None:
         b = np.zeros_like(x)
 
